@@ -2,12 +2,18 @@
 (***************************************************************************)
 (* C09 -- snapshot / revert / per-transaction finalisation of core/state's *)
 (* StateDB (statedb.go Snapshot, RevertToSnapshot, Finalise,               *)
-(* clearJournalAndRefund; journal.go; statedb_val.go).                      *)
+(* clearJournalAndRefund, createObject, Suicide; journal.go;               *)
+(* state_object.go; statedb_val.go; statedb_staking.go UpdateDelegation).  *)
 (*                                                                         *)
 (* Design layer (implementation shaped): the abstract state is a flat map  *)
 (* key -> value; the account journal and the validator journal are two     *)
-(* sequences of undo entries; there are TWO revision lists and one id      *)
-(* counter, exactly as coded.  Each journalled mutation kind is one action.*)
+(* sequences of undo entries (an account entry saves the previous values   *)
+(* of the keys it overwrites and names the account it dirties, exactly the *)
+(* information journal.go keeps); there are TWO revision lists and one id  *)
+(* counter, as coded.  Each journalled mutation kind is one action; object *)
+(* creation on first write (GetOrNewStateObject -> createObject), touch,   *)
+(* self-destruct and the end-of-transaction deletion of self-destructed    *)
+(* and empty dirty accounts are modelled as the code does them.            *)
 (* Property layer: snap[id] is the abstract state when id was issued;      *)
 (* RevertRestores / RevertNeverFails are stated over it only.              *)
 (*                                                                         *)
@@ -17,10 +23,10 @@
 (***************************************************************************)
 EXTENDS Integers, Sequences, FiniteSets, TLC, Json
 
-CONSTANTS Accts,      \* account ids, e.g. {1, 2}
+CONSTANTS Accts,      \* account ids; 1 and 2 are pre-funded (1000), any other id does not exist initially
           Vals,       \* validator ids, e.g. {1}
           MaxOps,     \* bound on the behaviour length
-          Rich,       \* alphabet: "reduced" (exhaustive M, G1), "deleg" (validators + delegations, G1), "rich" (simulation)
+          Rich,       \* alphabet: "reduced" (exhaustive M, G1), "deleg", "life" (G1), "rich" (simulation)
           ClearValRevs, \* TRUE = Finalise also resets the validator revision list (repaired code)
           GenMode     \* "none" | "leaf" : print hist at leaves
 
@@ -35,10 +41,16 @@ VARIABLES st,         \* abstract state: function key -> value
 vars == <<st, j, vj, revs, vrevs, nextId, snap, failed, hist>>
 
 \* ---------------------------------------------------------------- keys
-AcctKeys == { <<f, a>> : f \in {"bal", "nonce", "s1", "s2", "code", "dbal", "dto"}, a \in Accts }
+\* "gb" (ghost balance): the balance left in an object that was deleted at a transaction boundary; CreateAccount
+\* carries it over (statedb.go CreateAccount does not test prev.deleted -- inherited from go-ethereum 1.9)
+AF == {"ex", "kn", "bal", "nonce", "s1", "s2", "code", "sui", "dbal", "dto", "gb"}
+AKeys(a) == { <<f, a>> : f \in AF }
+AcctKeys == UNION { AKeys(a) : a \in Accts }
 ValKeys  == { <<"val", v>> : v \in Vals }
 GlobKeys == { <<"refund", 0>>, <<"logs", 0>>, <<"wq", 0>>, <<"stat", 0>>, <<"rec", 0>> }
 Keys == AcctKeys \cup ValKeys \cup GlobKeys
+Funded == Accts \cap {1, 2}
+FundedBal == 1000
 
 NoVal == [tok |-> 0, on |-> FALSE, ex |-> FALSE, dl |-> [a \in Accts |-> 0]]
 ZeroStat == [onTok |-> 0, offTok |-> 0, onCnt |-> 0, offCnt |-> 0]
@@ -48,6 +60,9 @@ InitState == [k \in Keys |->
                    [] k[1] = "wq"   -> <<>>
                    [] k[1] = "dto"  -> {}
                    [] k[1] = "stat" -> ZeroStat
+                   [] k[1] \in {"ex", "kn"} -> k[2] \in Funded
+                   [] k[1] = "sui"  -> FALSE
+                   [] k[1] = "bal"  -> IF k[2] \in Funded THEN FundedBal ELSE 0
                    [] OTHER         -> 0]
 
 \* statistics maintained incrementally, as incrValidatorsStat / decrValidatorsStat do
@@ -63,26 +78,89 @@ Init == /\ st = InitState /\ j = <<>> /\ vj = <<>> /\ revs = <<>> /\ vrevs = <<>
 Tick(rec) == /\ Len(hist) < MaxOps /\ ~failed
              /\ hist' = Append(hist, rec)
 
-\* ---------------------------------------------------------------- account-journal mutations
-SetKey(k, v, name, args) ==
-   /\ Tick([op |-> name] @@ args)
-   /\ st' = [st EXCEPT ![k] = v]
-   /\ j' = Append(j, [k |-> k, prev |-> st[k]])
-   /\ UNCHANGED <<vj, revs, vrevs, nextId, snap, failed>>
+\* ---------------------------------------------------------------- account objects
+Over(s, f)   == [k \in Keys |-> IF k \in DOMAIN f THEN f[k] ELSE s[k]]
+Saved(s, ks) == [k \in ks |-> s[k]]
+\* an account entry: previous values of the overwritten keys + the account it marks dirty (0 = none, as
+\* resetObjectChange / refundChange / addLogChange do)
+Ent(s, ks, d) == [prev |-> Saved(s, ks), d |-> d]
 
-AddBalance(a, d) == SetKey(<<"bal", a>>, st[<<"bal", a>>] + d, "AddBalance", [a |-> a, d |-> d])
-SubBalance(a, d) == st[<<"bal", a>>] >= d /\ SetKey(<<"bal", a>>, st[<<"bal", a>>] - d, "SubBalance", [a |-> a, d |-> d])
-SetNonce(a, n)   == SetKey(<<"nonce", a>>, n, "SetNonce", [a |-> a, v |-> n])
+\* newObject(Account{}): everything zero, exists
+Fresh(a) == [k \in AKeys(a) |->
+               CASE k[1] \in {"ex", "kn"} -> TRUE
+                 [] k[1] = "sui" -> FALSE
+                 [] k[1] = "dto" -> {}
+                 [] OTHER -> 0]
+\* an account deleted at the end of a transaction: gone, but its (deleted) object stays known to the StateDB
+Gone(s, a) == [k \in AKeys(a) |->
+               CASE k[1] = "ex" -> FALSE
+                 [] k[1] = "kn" -> TRUE
+                 [] k[1] = "gb" -> s[<<"bal", a>>]
+                 [] k[1] = "sui" -> FALSE
+                 [] k[1] = "dto" -> {}
+                 [] OTHER -> 0]
+Empty(s, a) == s[<<"nonce", a>>] = 0 /\ s[<<"bal", a>>] = 0 /\ s[<<"code", a>>] = 0
+
+\* GetOrNewStateObject: createObject when there is no live object.  createObjectChange (dirties the account)
+\* when the StateDB has never seen the address, resetObjectChange (dirties nothing) when a deleted object is known.
+EnsureS(s, a) == IF s[<<"ex", a>>] THEN s ELSE Over(s, Fresh(a))
+EnsureJ(s, jr, a) == IF s[<<"ex", a>>] THEN jr
+                     ELSE Append(jr, Ent(s, AKeys(a), IF s[<<"kn", a>>] THEN 0 ELSE a))
+
+AcctDone == UNCHANGED <<vj, revs, vrevs, nextId, snap, failed>>
+
+\* a setter that always journals (SetBalance, SetNonce, SetCode)
+Setter(a, k, v, rec) ==
+   /\ Tick(rec)
+   /\ LET s1 == EnsureS(st, a)  j1 == EnsureJ(st, j, a) IN
+      /\ st' = [s1 EXCEPT ![k] = v]
+      /\ j' = Append(j1, Ent(s1, {k}, a))
+   /\ AcctDone
+
+\* stateObject.AddBalance: amount 0 only touches an empty object
+AddBalance(a, d) ==
+   IF d > 0 THEN Setter(a, <<"bal", a>>, EnsureS(st, a)[<<"bal", a>>] + d, [op |-> "AddBalance", a |-> a, d |-> d])
+   ELSE /\ Tick([op |-> "AddBalance", a |-> a, d |-> 0])
+        /\ LET s1 == EnsureS(st, a)  j1 == EnsureJ(st, j, a) IN
+           /\ st' = s1
+           /\ j' = IF Empty(s1, a) THEN Append(j1, Ent(s1, {}, a)) ELSE j1
+        /\ AcctDone
+SubBalance(a, d) == st[<<"ex", a>>] /\ st[<<"bal", a>>] >= d /\ d > 0
+                    /\ Setter(a, <<"bal", a>>, st[<<"bal", a>>] - d, [op |-> "SubBalance", a |-> a, d |-> d])
+SetNonce(a, n)   == Setter(a, <<"nonce", a>>, n, [op |-> "SetNonce", a |-> a, v |-> n])
+SetCode(a, c)    == Setter(a, <<"code", a>>, c, [op |-> "SetCode", a |-> a, v |-> c])
 \* stateObject.SetState returns early (no journal entry) when the value does not change
 SetState(a, s, v) ==
-   IF st[<<s, a>>] = v
-   THEN /\ Tick([op |-> "SetState", a |-> a, s |-> s, v |-> v])
-        /\ UNCHANGED <<st, j, vj, revs, vrevs, nextId, snap, failed>>
-   ELSE SetKey(<<s, a>>, v, "SetState", [a |-> a, s |-> s, v |-> v])
-SetCode(a, c)    == SetKey(<<"code", a>>, c, "SetCode", [a |-> a, v |-> c])
-AddLog           == SetKey(<<"logs", 0>>, st[<<"logs", 0>>] + 1, "AddLog", [x |-> 0])
-AddRefund(g)     == SetKey(<<"refund", 0>>, st[<<"refund", 0>>] + g, "AddRefund", [v |-> g])
-SubRefund(g)     == st[<<"refund", 0>>] >= g /\ SetKey(<<"refund", 0>>, st[<<"refund", 0>>] - g, "SubRefund", [v |-> g])
+   /\ Tick([op |-> "SetState", a |-> a, s |-> s, v |-> v])
+   /\ LET s1 == EnsureS(st, a)  j1 == EnsureJ(st, j, a) IN
+      IF s1[<<s, a>>] = v THEN st' = s1 /\ j' = j1
+      ELSE st' = [s1 EXCEPT ![<<s, a>>] = v] /\ j' = Append(j1, Ent(s1, {<<s, a>>}, a))
+   /\ AcctDone
+
+\* StateDB.Suicide: nothing (not even a journal entry) without a live object
+Suicide(a) ==
+   /\ Tick([op |-> "Suicide", a |-> a])
+   /\ IF st[<<"ex", a>>]
+      THEN /\ st' = [st EXCEPT ![<<"sui", a>>] = TRUE, ![<<"bal", a>>] = 0]
+           /\ j' = Append(j, Ent(st, {<<"sui", a>>, <<"bal", a>>}, a))
+      ELSE UNCHANGED <<st, j>>
+   /\ AcctDone
+
+\* StateDB.CreateAccount: createObject unconditionally; the balance of a previous object is carried over
+CreateAccount(a) ==
+   /\ Tick([op |-> "CreateAccount", a |-> a])
+   /\ st' = [Over(st, Fresh(a)) EXCEPT ![<<"bal", a>>] = IF st[<<"ex", a>>] THEN st[<<"bal", a>>] ELSE st[<<"gb", a>>]]
+   /\ j' = Append(j, Ent(st, AKeys(a), IF st[<<"kn", a>>] THEN 0 ELSE a))
+   /\ AcctDone
+
+Global(k, v, rec) ==
+   /\ Tick(rec)
+   /\ st' = [st EXCEPT ![k] = v]
+   /\ j' = Append(j, Ent(st, {k}, 0))
+   /\ AcctDone
+AddLog       == Global(<<"logs", 0>>, st[<<"logs", 0>>] + 1, [op |-> "AddLog", x |-> 0])
+AddRefund(g) == Global(<<"refund", 0>>, st[<<"refund", 0>>] + g, [op |-> "AddRefund", v |-> g])
+SubRefund(g) == st[<<"refund", 0>>] >= g /\ Global(<<"refund", 0>>, st[<<"refund", 0>>] - g, [op |-> "SubRefund", v |-> g])
 
 \* ---------------------------------------------------------------- validator-journal mutations
 ValStep(rec, newst, entry) ==
@@ -135,6 +213,7 @@ RemoveWithdraw(i) ==
 \* always a delegationBalanceChange entry (account journal).
 UpdateDelegation(a, v, d) ==
    /\ st[<<"val", v>>].ex
+   /\ st[<<"ex", a>>]
    /\ LET old == st[<<"val", v>>]
           cur == old.dl[a]
           nv  == [old EXCEPT !.tok = @ + d, !.dl[a] = cur + d]
@@ -147,16 +226,9 @@ UpdateDelegation(a, v, d) ==
                           ![<<"dbal", a>>] = @ + d,
                           ![<<"dto", a>>] = ndto]
       /\ vj' = Append(vj, [kind |-> "update", v |-> v, old |-> old, new |-> nv])
-      /\ j' = (IF ndto # odto THEN Append(j, [k |-> <<"dto", a>>, prev |-> odto]) ELSE j)
-                 \o <<[k |-> <<"dbal", a>>, prev |-> st[<<"dbal", a>>]]>>
+      /\ j' = (IF ndto # odto THEN Append(j, Ent(st, {<<"dto", a>>}, a)) ELSE j)
+                 \o <<Ent(st, {<<"dbal", a>>}, a)>>
    /\ UNCHANGED <<revs, vrevs, nextId, snap, failed>>
-
-\* pending staking record (statedb_staking.go AddStakingRecord) -- NOT journalled in the code.
-\* Modelled as the code does it (no undo entry); the property layer still snapshots the key.
-AddStakingRecord(x) ==
-   /\ Tick([op |-> "AddStakingRecord", v |-> x])
-   /\ st' = [st EXCEPT ![<<"rec", 0>>] = @ + x]
-   /\ UNCHANGED <<j, vj, revs, vrevs, nextId, snap, failed>>
 
 \* ---------------------------------------------------------------- snapshot / revert / finalise
 Snapshot ==
@@ -176,7 +248,7 @@ Find(list, id) ==
 RECURSIVE UndoAcct(_, _, _)
 UndoAcct(s, jr, idx) ==
    IF Len(jr) <= idx THEN s
-   ELSE LET e == jr[Len(jr)] IN UndoAcct([s EXCEPT ![e.k] = e.prev], SubSeq(jr, 1, Len(jr) - 1), idx)
+   ELSE UndoAcct(Over(s, jr[Len(jr)].prev), SubSeq(jr, 1, Len(jr) - 1), idx)
 
 UndoValEntry(s, e) ==
    CASE e.kind = "create" -> [s EXCEPT ![<<"val", e.v>>] = NoVal, ![<<"stat", 0>>] = StatSub(@, s[<<"val", e.v>>])]
@@ -211,29 +283,55 @@ Revert(id) ==
            /\ failed' = FALSE
    /\ UNCHANGED nextId
 
-\* transaction boundary: Finalise -> clearJournalAndRefund
+\* transaction boundary: Finalise(deleteEmptyObjects = true): every DIRTY account that self-destructed or is empty is
+\* deleted; then clearJournalAndRefund
+Dirty == { j[n].d : n \in DOMAIN j } \ {0}
 Finalise ==
    /\ Tick([op |-> "Finalise"])
+   /\ LET dead == { a \in Dirty : st[<<"ex", a>>] /\ (st[<<"sui", a>>] \/ Empty(st, a)) }
+          gone == [k \in UNION { AKeys(a) : a \in dead } |-> Gone(st, k[2])[k]] IN
+      st' = [Over(st, gone) EXCEPT ![<<"refund", 0>>] = 0]
    /\ j' = <<>> /\ vj' = <<>> /\ revs' = <<>>
    /\ vrevs' = IF ClearValRevs THEN <<>> ELSE vrevs
-   /\ st' = [st EXCEPT ![<<"refund", 0>>] = 0]
    /\ snap' = <<>>
    /\ UNCHANGED <<nextId, failed>>
 
 \* ---------------------------------------------------------------- next-state relations
+SnapRev == Snapshot \/ Finalise \/ \E id \in 0..MaxOps : Revert(id)
+
 NextReduced ==
    \/ \E a \in Accts : AddBalance(a, 1)
    \/ \E v \in Vals : CreateValidator(v, 1) \/ UpdateValidator(v, 1, FALSE) \/ RemoveValidator(v)
    \/ AddWithdraw(1) \/ RemoveWithdraw(1)
-   \/ Snapshot \/ Finalise
-   \/ \E id \in 0..MaxOps : Revert(id)
+   \/ SnapRev
+
+\* second small alphabet: the validator record with its delegation list (the journalled old/new records share structure)
+NextDeleg ==
+   \/ \E v \in Vals : CreateValidator(v, 2) \/ UpdateValidator(v, 1, FALSE)
+   \/ \E a \in Accts, v \in Vals, d \in {-1, 1, 2} : UpdateDelegation(a, v, d)
+   \/ SnapRev
+
+\* third small alphabet: the life cycle of account objects (creation on first write, touch, self-destruct, reset,
+\* deletion at the transaction boundary, same-value and zero writes)
+NextLife ==
+   \/ \E a \in Accts : \/ AddBalance(a, 0) \/ AddBalance(a, 1) \/ SubBalance(a, 1000)
+                       \/ Suicide(a) \/ CreateAccount(a)
+                       \/ SetNonce(a, 1) \/ SetState(a, "s1", 1) \/ SetState(a, "s1", 0)
+   \/ SnapRev
+
+\* fourth small alphabet: one storage slot rewritten across transaction boundaries (dirty / pending / original value caches)
+NextStore ==
+   \/ \E a \in Accts, v \in {0, 1, 2} : SetState(a, "s1", v)
+   \/ SnapRev
 
 NextRich ==
    \/ \E a \in Accts :
-        \/ \E d \in {1, 2} : AddBalance(a, d) \/ SubBalance(a, d)
-        \/ \E n \in {1, 2} : SetNonce(a, n) \/ SetCode(a, n)
+        \/ \E d \in {0, 1, 2} : AddBalance(a, d)
+        \/ \E d \in {1, 2, 1000} : SubBalance(a, d)
+        \/ \E n \in {0, 1, 2} : SetNonce(a, n) \/ SetCode(a, n)
         \/ \E s \in {"s1", "s2"}, v \in {0, 1, 2} : SetState(a, s, v)
         \/ \E v \in Vals, d \in {-1, 1, 2} : UpdateDelegation(a, v, d)
+        \/ Suicide(a) \/ CreateAccount(a)
    \/ AddLog \/ AddRefund(1) \/ SubRefund(1)
    \/ \E v \in Vals :
         \/ \E t \in {1, 2} : CreateValidator(v, t)
@@ -241,22 +339,14 @@ NextRich ==
         \/ RemoveValidator(v)
    \/ \E r \in {1, 2, 3} : AddWithdraw(r)
    \/ \E i \in {1, 2} : RemoveWithdraw(i)
-   \/ Snapshot \/ Finalise
-   \/ \E id \in 0..MaxOps : Revert(id)
+   \/ SnapRev
 
-\* second small alphabet: the validator record with its delegation list (the journalled old/new records share structure)
-NextDeleg ==
-   \/ \E v \in Vals : CreateValidator(v, 2) \/ UpdateValidator(v, 1, FALSE)
-   \/ \E a \in Accts, v \in Vals, d \in {-1, 1, 2} : UpdateDelegation(a, v, d)
-   \/ Snapshot \/ Finalise
-   \/ \E id \in 0..MaxOps : Revert(id)
-
-Next == CASE Rich = "rich" -> NextRich [] Rich = "deleg" -> NextDeleg [] OTHER -> NextReduced
+Next == CASE Rich = "rich" -> NextRich [] Rich = "deleg" -> NextDeleg [] Rich = "life" -> NextLife [] Rich = "store" -> NextStore [] OTHER -> NextReduced
 Spec == Init /\ [][Next]_vars
 
 \* ---------------------------------------------------------------- property layer
-\* "Reverting a valid snapshot never fails."
 Cex(name) == PrintT("@@J " \o ToJson([kind |-> "CEX", clause |-> name, h |-> hist])) /\ FALSE
+\* "Reverting a valid snapshot never fails."
 RevertNeverFails == ~failed \/ (Cex("RevertNeverFails"))
 
 \* "reverting to an earlier snapshot makes every observable equal to what it was when the snapshot was taken"
@@ -266,11 +356,20 @@ RevertRestores ==
          (Len(hist') = Len(hist) + 1 /\ hist'[Len(hist')].op = "Revert" /\ hist'[Len(hist')].id = id /\ ~failed')
             => (st' = snap[SnapOf(id)].s \/ (PrintT("@@J " \o ToJson([kind |-> "CEX", clause |-> "RevertRestores", h |-> hist'])) /\ FALSE)) ]_vars
 
-\* the statistics always equal the recomputation from the records (C08's clause, here as a sanity invariant)
-Recount == LET ex == { v \in Vals : st[<<"val", v>>].ex } IN TRUE
+\* design sanity: an account that does not exist has no content; the statistics equal the recomputation
+AbsentIsZero == \A a \in Accts : ~st[<<"ex", a>>] => (st[<<"bal", a>>] = 0 /\ st[<<"nonce", a>>] = 0 /\ st[<<"code", a>>] = 0
+                                                       /\ st[<<"s1", a>>] = 0 /\ st[<<"s2", a>>] = 0 /\ ~st[<<"sui", a>>])
+RECURSIVE SumTok(_, _)
+SumTok(S, on) == IF S = {} THEN 0 ELSE LET v == CHOOSE x \in S : TRUE IN
+                   (IF st[<<"val", v>>].ex /\ st[<<"val", v>>].on = on THEN st[<<"val", v>>].tok ELSE 0) + SumTok(S \ {v}, on)
+StatIsRecount == st[<<"stat", 0>>].onTok = SumTok(Vals, TRUE) /\ st[<<"stat", 0>>].offTok = SumTok(Vals, FALSE)
 
 \* ---------------------------------------------------------------- generation
-Leaf == (GenMode = "leaf" /\ (Len(hist) = MaxOps \/ failed)) => PrintT("@@J " \o ToJson([kind |-> "B", h |-> hist]))
+\* GenMode "leaf": print complete behaviours (simulation).  GenMode "revert": print every behaviour, of any length up to
+\* MaxOps, whose last action is a Revert -- each non-trivial prefix exactly once, nothing after the last Revert.
+Leaf == CASE GenMode = "leaf"   -> ((Len(hist) = MaxOps \/ failed) => PrintT("@@J " \o ToJson([kind |-> "B", h |-> hist])))
+          [] GenMode = "revert" -> ((Len(hist) > 0 /\ hist[Len(hist)].op = "Revert") => PrintT("@@J " \o ToJson([kind |-> "B", h |-> hist])))
+          [] OTHER -> TRUE
 \* in simulation mode every behaviour is printed when it reaches its last state
 View == <<st, j, vj, revs, vrevs, nextId, snap, failed>>
 =============================================================================
